@@ -182,6 +182,7 @@ func c10Case(t *T) {
 		}
 		prevDirty = dirty
 
+		t.Tracef("#%d %s ctx=%p snapshot: %s", k, q, rec.CtxPtr, rec.Extra["snapshot"])
 		if panicked != fpanicked {
 			t.Fail("panic-differs", "request #%d %s: panicked=%v (%v) on the used router, %v (%v) as the first request of a fresh router", k, q, panicked, pv, fpanicked, fpv)
 			return
